@@ -10,5 +10,12 @@ git -C /repo apply $d/patch.diff || { echo "PATCH DOES NOT APPLY"; exit 9; }
 PYTHONPATH=/repo /venv/bin/python $d/demo.py >/dev/null 2>&1; echo "demo with change rc=$?"
 for p in "$@"; do
   cd /verif && ./check $p --tier quick | grep -E "VIOLATION|UNDECIDED|SUMMARY|CHECKER" | cut -c1-260 | awk '{a[NR]=$0} END{n=NR; for(i=1;i<=n;i++) if(i<=3||i>n-1) print a[i]}'
+  python3 - "$VERIF_OUT/replays/$p" <<'PY'
+import sys, os, json, collections
+d = sys.argv[1]; c = collections.Counter()
+for f in (os.listdir(d) if os.path.isdir(d) else []):
+    r = json.load(open(os.path.join(d, f))); c[r.get("clause") or r.get("obligation") or r.get("kind")] += 1
+print("clauses:", dict(c))
+PY
 done
 git -C /repo checkout -- .
